@@ -625,9 +625,12 @@ def make_pickle(fs, record_len=None):
             end = start + st.records[i][1]
             cut = st.truncate_at
             if bool(cut <= start):
+                handle.pos = len(st.records)
                 raise EOFError("Ran out of input")
             if bool(cut < end):
-                # record cut short: _pickle raises EOFError or UnpicklingError depending on where
+                # record cut short: _pickle raises EOFError or UnpicklingError depending on where; the bytes that
+                # were there have been consumed, so every later load finds end of data
+                handle.pos = len(st.records)
                 if C.ctx().choose(2) == 0:
                     raise EOFError("Ran out of input")
                 raise _pickle.UnpicklingError("pickle data was truncated")
